@@ -298,6 +298,21 @@ DefinitionsSane ==
             /\ Len(SortP(P)) = Card(P)
             /\ \A k \in 1..3 : \A d \in BOOLEAN : TopAdmissible(G, k, d) # {}
 
+\* topk/bottomk/sort agree with the VALUES where that is unambiguous: in a group of constant series
+\* (negative ones included) the ranking key orders the series as their values do, and in a group of
+\* non-decreasing series (plateaus allowed: counters, constant gauges) as their last values do
+Constant(s) == \A i, j \in DOMAIN data[s] : data[s][i] = data[s][j]
+LastVal(s)  == Def("last", Pts({s}, Slots)).n
+TopRanksByValue ==
+    \A G \in AllGroups :
+        LET E == NonEmpty(G) IN
+        /\ (\A s \in E : NonDec(s)) =>
+              \A x, y \in E : (LastVal(x) < LastVal(y) <=> Weight(G, x) < Weight(G, y))
+        /\ (\A s \in E : Constant(s)) =>
+              \A x, y \in E : LastVal(x) < LastVal(y) =>
+                  /\ \A T \in TopAdmissible(G, 1, TRUE) : x \notin T        \* topk(1) never returns the smaller constant
+                  /\ \A T \in TopAdmissible(G, 1, FALSE) : y \notin T       \* bottomk(1) never the larger
+
 ----------------------------------------------------------------------------
 (* EXPORT of the specified results for the Go driver.  Results are listed   *)
 (* per distinct series set (group); every grouping refers to its groups.    *)
@@ -323,8 +338,11 @@ DataOut == [s \in Series |-> [t \in Slots |-> IF t \in DOMAIN data[s] THEN <<1, 
 AggTable ==
     [i \in 1..Len(GroupSeq) |->
         LET G == GroupSeq[i] IN
-        [ops |-> LET PT == [t \in Slots |-> Pts(G, {t})] IN
+        [ops |-> IF "agg" \notin Tables THEN <<>> ELSE
+                 LET PT == [t \in Slots |-> Pts(G, {t})] IN
                  [oi \in 1..Len(AggOpSeq) |-> [op |-> AggOpSeq[oi], v |-> [t \in Slots |-> V(Def(AggOpSeq[oi], PT[t]))]]],
+         \* ranking key of every series within this group (<<0, 0>> = the series has no point): sort / sort_desc
+         wt |-> [s \in Series |-> IF s \in NonEmpty(G) THEN <<1, Weight(G, s)>> ELSE <<0, 0>>],
          top |-> [k \in 1..2 |-> [desc |-> SetToSeq({SetToSeq(T) : T \in TopAdmissible(G, k, TRUE)}),
                                   asc  |-> SetToSeq({SetToSeq(T) : T \in TopAdmissible(G, k, FALSE)})]]]]
 
@@ -375,7 +393,7 @@ Case == [a |-> "Case", ns |-> NS, nt |-> NT, r |-> R, wmax |-> WMax,
          tags |-> [s \in Series |-> <<TagA[s], TagB[s]>>],
          data |-> DataOut,
          groupings |-> GroupingTable, members |-> MembersTable,
-         agg |-> IF "agg" \in Tables THEN AggTable ELSE <<>>,
+         agg |-> IF "agg" \in Tables \/ "top" \in Tables THEN AggTable ELSE <<>>,
          ot  |-> IF "ot" \in Tables THEN OTTable ELSE <<>>,
          red |-> IF "red" \in Tables THEN <<RedTable>> ELSE <<>>]
 
